@@ -253,6 +253,11 @@ func structural(es proofElems, pool [][]byte, emit func(proofElems, string)) {
 		emit(d, fmt.Sprintf("element %d duplicated", m))
 		emit(cloneElems(es[:m]), fmt.Sprintf("truncated to %d elements", m))
 	}
+	// (5) elements AFTER the end of the path: every pool element appended to the complete proof (a verifier that
+	// goes on walking past the value node would end up with the last value it meets)
+	for pi, pe := range pool {
+		emit(append(cloneElems(es), pe), fmt.Sprintf("pool element %d appended after the last element", pi))
+	}
 	// reversed order
 	r := cloneElems(es)
 	for i, j := 0, len(r)-1; i < j; i, j = i+1, j-1 {
